@@ -24,6 +24,22 @@ def norm(path):
 		if c == '<':
 			prev = path[i - 1] if i > 0 else ''
 			is_generic = prev.isalnum() or prev == '_' or path[max(0, i - 2):i] == '::'
+			if is_generic and path.startswith('<impl ', i):
+				# module::<impl Trait<A> for Type<B>>::method  ->  keep the impl header (generic arguments stripped)
+				depth = 0
+				j = i
+				while j < n:
+					if path[j] == '<':
+						depth += 1
+					elif path[j] == '>' and path[j - 1] != '-':
+						depth -= 1
+						if depth == 0:
+							break
+					j += 1
+				inner = path[i + 1:j]
+				out.append('<' + norm(inner) + '>')
+				i = j + 1
+				continue
 			if is_generic:
 				# skip balanced <...>
 				depth = 0
@@ -258,6 +274,23 @@ class Facts:
 		fu = Func(json.loads(f.read(ln)), self, n)
 		self._cfg_cache[n] = fu
 		return fu
+
+	def funcs(self, name):
+		"""all bodies whose path normalises to `name` (impls that differ only in generic arguments, e.g.
+		TryFrom<Vec<u8>> and TryFrom<ParsedMessage<..>> for one type)"""
+		n = self.fn(name)
+		ents = self._cfg_idx.get(n) or []
+		out = []
+		for i, (c, off, ln) in enumerate(ents):
+			key = (n, i)
+			if key not in self._cfg_cache:
+				if c not in self._cfg_files:
+					self._cfg_files[c] = open(os.path.join(self.dir, c, 'cfg.jsonl'), 'rb')
+				f = self._cfg_files[c]
+				f.seek(off)
+				self._cfg_cache[key] = Func(json.loads(f.read(ln)), self, n)
+			out.append(self._cfg_cache[key])
+		return out
 
 	def closures_of(self, name):
 		n = self.fn(name)
@@ -1092,6 +1125,40 @@ def sites_call(fu, names, facts=None):
 				return True
 		return False
 	return fu.call_blocks(pred)
+
+def sites_call_via_closures(facts, fu, names):
+	"""blocks of fu that call one of `names` directly, or call anything with a closure argument (built in fu) whose
+	body - transitively through nested closures - calls one of `names` (e.g. `opt.and_then(|x| self.f(x))`)"""
+	out = set(sites_call(fu, names))
+	clos = {}   # local -> closure def path
+	for bi, si, s in fu.stmts():
+		rv = s[2]
+		if rv[0] == 'agg' and rv[1] == 'closure' and len(s[1]) == 1:
+			clos[s[1][0]] = norm(rv[2])
+	if not clos:
+		return out
+	def calls_it(c):
+		for n in [k for k in facts.fns if k == c or k.startswith(c + '::{')]:
+			try:
+				if sites_call(facts.func(n), names):
+					return True
+			except AnchorMissing:
+				pass
+		return False
+	hit = {l for l, c in clos.items() if calls_it(c)}
+	if not hit:
+		return out
+	# locals that are moves/refs of a hit closure
+	alias = set(hit)
+	for _ in range(3):
+		for bi, si, s in fu.stmts():
+			rv = s[2]
+			if len(s[1]) == 1 and ((rv[0] == 'use' and rv[1][0] in ('c', 'm') and rv[1][1][0] in alias) or (rv[0] == 'ref' and rv[2][0] in alias)):
+				alias.add(s[1][0])
+	for b, ci in fu.calls():
+		if any(a[0] in ('c', 'm') and a[1][0] in alias for a in ci['args']):
+			out.add(b)
+	return out
 
 def sites_construct(fu, adt, variant=None):
 	"""(block, stmt) of aggregate constructions of adt[::variant]"""
